@@ -901,3 +901,90 @@ Lemma shared_all t v :
   okv t v ->
   (forall d, val_eqb (y_shared d t v) v = true) /\ val_eqb (y_round_s t v) v = true /\ val_eqb (y_round_h t v) v = true.
 Proof. intros H; split; [intros d; apply shared_agree|split; [apply round_s_agree|apply round_h_agree]]; assumption. Qed.
+
+(* ------------------------------------------------------------------ *)
+(** * Embedded host interfaces *)
+
+Definition layout_first (f : efacts) : bool := match ef_layout f with LFirst => true | _ => false end.
+
+(** The decidable side condition: no override is skipped by handing the value over unwrapped, and
+    every promoted method can be found and called. *)
+Definition embed_side (f : efacts) (over methods : list str) : bool :=
+  if ef_ptr f && ef_implements f then ef_real f && forallb (fun m => negb (mem m over)) methods
+  else forallb (fun m => mem m over || ef_ptr f || (if ef_nummeth f then ef_real f else negb (layout_first f))) methods.
+
+Definition calm (w : who) : bool := match w with WFailBuild | WFailCall => false | _ => true end.
+
+Lemma run_calls_calm l : forallb calm l = true -> run_calls l false = (l, false).
+Proof.
+  induction l as [|w l IH]; simpl; [reflexivity|]. rewrite andb_true_iff. intros [Hw Hl].
+  rewrite (IH Hl). destruct w; try discriminate; reflexivity.
+Qed.
+
+Lemma calm_no_failbuild l : forallb calm l = true -> existsb is_failbuild l = false.
+Proof.
+  induction l as [|w l IH]; simpl; [reflexivity|]. rewrite andb_true_iff. intros [Hw Hl].
+  rewrite (IH Hl). destruct w; try discriminate; reflexivity.
+Qed.
+
+Lemma y_one_agree f over del methods :
+  embed_side f over methods = true ->
+  map (y_one f over del) methods = map (g_one over del) methods.
+Proof.
+  unfold embed_side, y_one, g_one. destruct (ef_ptr f && ef_implements f) eqn:E.
+  - rewrite andb_true_iff. intros [Hr H]. rewrite Hr.
+    induction methods as [|m ms IH]; simpl in *; [reflexivity|].
+    rewrite andb_true_iff, negb_true_iff in H. destruct H as [Hm Hms]. rewrite Hm. f_equal; auto.
+  - intros H. induction methods as [|m ms IH]; simpl in *; [reflexivity|].
+    rewrite andb_true_iff in H. destruct H as [Hm Hms]. f_equal; [|auto].
+    destruct (mem m over); [reflexivity|]. simpl in Hm.
+    destruct (ef_ptr f); [reflexivity|]. simpl in Hm.
+    destruct (ef_nummeth f); [rewrite Hm; reflexivity|].
+    unfold layout_first in Hm. destruct (ef_layout f); try reflexivity; discriminate.
+Qed.
+
+Lemma g_one_calm over del methods : forallb calm (map (g_one over del) methods) = true.
+Proof.
+  induction methods as [|m ms IH]; simpl; [reflexivity|]. rewrite IH, andb_true_r.
+  unfold g_one. destruct (mem m over); [destruct del|]; reflexivity.
+Qed.
+
+Lemma embedded_agree f over del methods :
+  embed_side f over methods = true -> y_dispatch f over del methods = g_dispatch over del methods.
+Proof.
+  intros H. unfold y_dispatch, g_dispatch. rewrite (y_one_agree _ _ del _ H).
+  rewrite calm_no_failbuild, run_calls_calm by apply g_one_calm. reflexivity.
+Qed.
+
+Definition f_val_only_iface : efacts :=   (* T{io-like interface}, by value: StructOf's stubs *)
+  {| ef_ptr := false; ef_layout := LOnly; ef_implements := true; ef_nummeth := true; ef_real := false |}.
+Definition f_ptr_only_compiled : efacts := (* &T{io.Writer}: *struct{io.Writer} exists in the binary *)
+  {| ef_ptr := true; ef_layout := LOnly; ef_implements := true; ef_nummeth := true; ef_real := true |}.
+Definition f_val_first : efacts :=
+  {| ef_ptr := false; ef_layout := LFirst; ef_implements := false; ef_nummeth := false; ef_real := true |}.
+Definition f_ptr_last : efacts :=
+  {| ef_ptr := true; ef_layout := LLast; ef_implements := false; ef_nummeth := false; ef_real := true |}.
+
+Lemma embed_side_inhabited :
+  embed_side f_val_only_iface [s "Len"; s "Less"; s "Swap"] [s "Len"; s "Less"; s "Swap"] = true
+  /\ embed_side f_ptr_last [s "Less"] [s "Len"; s "Less"; s "Swap"] = true
+  /\ y_dispatch f_ptr_last [s "Less"] true [s "Len"; s "Less"; s "Swap"] = ([WHost; WBoth; WHost], false).
+Proof. repeat split; reflexivity. Qed.
+
+(** &T{io.Writer} with T overriding Write, handed to a host function taking io.Writer *)
+Lemma embedded_unwrapped_pointer_refuted :
+  y_dispatch f_ptr_only_compiled [s "Write"] false [s "Write"] = ([WHost], false)
+  /\ g_dispatch [s "Write"] false [s "Write"] = ([WScript], false).
+Proof. split; reflexivity. Qed.
+
+(** T{sort.Interface} overriding only Len, by value *)
+Lemma embedded_promoted_stub_refuted :
+  y_dispatch f_val_only_iface [s "Len"] false [s "Len"; s "Less"; s "Swap"] = ([WScript; WNone; WNone], true)
+  /\ g_dispatch [s "Len"] false [s "Len"; s "Less"; s "Swap"] = ([WScript; WHost; WHost], false).
+Proof. split; reflexivity. Qed.
+
+(** T{io.Reader; K string} not overriding Read, by value *)
+Lemma embedded_first_by_value_refuted :
+  y_dispatch f_val_first [] false [s "Read"] = ([WNone], true)
+  /\ g_dispatch [] false [s "Read"] = ([WHost], false).
+Proof. split; reflexivity. Qed.
